@@ -25,8 +25,11 @@ from __future__ import annotations
 import collections
 import hashlib
 import inspect
+import io
 import itertools
 import math
+import pickle
+import struct
 import sys
 import types
 
@@ -62,7 +65,7 @@ def fhex(x):
     return "nan" if math.isnan(x) else x.hex()
 
 
-def snap(o, stack=()):
+def snap(o, stack=(), memo=None):
     """Deep snapshot BY VALUE (floats bit for bit, arrays by dtype/shape/bytes, objects through __dict__)."""
     t = type(o)
     if t is float:
@@ -77,19 +80,27 @@ def snap(o, stack=()):
         return int(o)
     if t is np.ndarray:
         if o.dtype == object:
-            return ("ndo", o.shape, [snap(e, stack) for e in o.ravel().tolist()])
+            return ("ndo", o.shape, [snap(e, stack, memo) for e in o.ravel().tolist()])
         return ("nd", str(o.dtype), o.shape, hashlib.sha1(np.ascontiguousarray(o).tobytes()).hexdigest())
     if isinstance(o, _REFS) or (callable(o) and not hasattr(o, "__dict__")):
         return ("ref", getattr(o, "__qualname__", t.__name__), id(o))
     if id(o) in stack:
         return ("cycle", stack.index(id(o)))
+    if memo is None:
+        memo = {}
     st = stack + (id(o),)
     if t is dict:
-        return ("dict", [(repr(k), snap(v, st)) for k, v in o.items()])
+        return ("dict", [(repr(k), snap(v, st, memo)) for k, v in o.items()])
     if isinstance(o, (list, tuple, collections.deque)):
-        return ("seq", t.__name__, getattr(o, "maxlen", None), [snap(e, st) for e in o])
+        if len(o) > 4:
+            ts = set(map(type, o))
+            if ts <= _FLOATS:  # long float lists (histories, windows): the bytes of the doubles
+                return ("seqf", t.__name__, getattr(o, "maxlen", None), len(o), hashlib.sha1(struct.pack(f"{len(o)}d", *o)).hexdigest())
+            if ts <= _ATOM_SET:
+                return ("seqa", t.__name__, getattr(o, "maxlen", None), tuple(o))
+        return ("seq", t.__name__, getattr(o, "maxlen", None), [snap(e, st, memo) for e in o])
     if isinstance(o, dict):
-        return ("dict", [(repr(k), snap(v, st)) for k, v in o.items()])
+        return ("dict", [(repr(k), snap(v, st, memo)) for k, v in o.items()])
     if isinstance(o, (set, frozenset)):
         return ("set", sorted(repr(e) for e in o))
     if hasattr(o, "__dict__"):
@@ -98,6 +109,38 @@ def snap(o, stack=()):
 
 
 _ATOM_SET = {type(None), bool, int, str, bytes}
+_FLOATS = {float, np.float64}
+_CONTAINERS = {dict, list, set, np.ndarray, collections.deque}
+
+
+def _ref(x):
+    return x
+
+
+class _ByValue(pickle.Pickler):
+    """pickle as the by-value serialiser (C speed): every reachable object through its state, floats and
+    array buffers bit for bit, shared references and cycles kept; functions / classes / modules / the
+    global generator object are written as identities."""
+
+    def reducer_override(self, o):
+        if o is _ref:
+            return NotImplemented
+        if isinstance(o, _REFS):
+            return (_ref, (f"ref:{getattr(o, '__qualname__', '?')}:{id(o)}",))
+        if o is np.random.mtrand._rand:
+            return (_ref, ("numpy-global-generator",))
+        return NotImplemented
+
+
+def vsnap(o):
+    """By-value fingerprint of an object graph (falls back to the pure-Python walker)."""
+    try:
+        f = io.BytesIO()
+        _ByValue(f, protocol=5).dump(o)
+        return hashlib.sha1(f.getvalue()).digest()
+    except Exception:  # noqa: BLE001  (an object pickle cannot serialise)
+        return snap(o)
+
 _SKIP_CLASS_KEYS = ("__dict__", "__weakref__", "__doc__", "_abc_impl", "__slotnames__")  # __slotnames__: copyreg's per-class memo, written by copy.deepcopy
 
 
@@ -108,7 +151,8 @@ def snap_class(c):
 
 def snap_class_fast(c):
     """Class attributes: binding identity for everything, contents for containers (the per-call version)."""
-    return [(k, id(v), snap(v) if isinstance(v, (dict, list, set, np.ndarray)) else None) for k, v in vars(c).items() if k not in _SKIP_CLASS_KEYS]
+    d = vars(c)
+    return (tuple(d), tuple(map(id, d.values())), [snap(v) for v in d.values() if type(v) in _CONTAINERS])
 
 
 def rng_fingerprint():
@@ -222,10 +266,10 @@ class World:
         p = {}
         p["class"] = old.get("class") or [(c.__qualname__, snap_class_fast(c)) for c in self.rel_classes]
         for i, c in enumerate(self.cfgs):
-            p[f"cfg{i}"] = old.get(f"cfg{i}") or snap(c)
+            p[f"cfg{i}"] = old.get(f"cfg{i}") or vsnap(c)
         for j, d in enumerate(self.insts):
             if j != skip_inst:
-                p[f"inst{j}"] = old.get(f"inst{j}") or snap(d)
+                p[f"inst{j}"] = old.get(f"inst{j}") or vsnap(d)
         p["rng"] = rng_fingerprint()
         return p
 
@@ -309,7 +353,9 @@ class World:
         d = self.insts[j]
         name = ins["det"]
         nd = len(self.rec.draws) if self.rec is not None else 0
+        hist_before = None
         if o == "R":
+            hist_before = self.hist_full(j)
             self.bracket("reset", name, d.reset, skip_inst=j)
         else:
             self.bracket("update", name, lambda: d.update(value=o), skip_inst=j, rng_allowed=(name == "KSWIN"))
@@ -318,7 +364,17 @@ class World:
         self.pos[j] += 1
         ob = self.dets[j].observe(d)
         st = {k: bool(v) for k, v in d.status.items()}
-        return canon(ob), st, (snap(self.cbs[j].history) if self.cbs[j] is not None else None), ob
+        return canon(ob), st, (hist_before, self.hist_tail(j)), ob
+
+    def hist_tail(self, j):
+        """Per call: length and newest entry of every history list (the full history is compared before
+        every reset and at the end of the run)."""
+        cb = self.cbs[j]
+        return None if cb is None else [(k, len(v), snap(v[-1]) if v else None) for k, v in cb.history.items()]
+
+    def hist_full(self, j):
+        cb = self.cbs[j]
+        return None if cb is None else snap(cb.history)
 
 
 def canon(ob):
@@ -341,6 +397,8 @@ def run_world(ck, spec, schedule, footprint=True):
                 return outs, raw, (j, w.pos[j], e), w
             outs[j].append((c, st, h))
             raw.append((j, ob))
+        for j in range(len(outs)):
+            outs[j].append(("final-history", None, w.hist_full(j)))
     return outs, raw, None, w
 
 
@@ -631,7 +689,7 @@ def check_world(ck, spec, mode, schedules, heap_exprs, heap_meta, solo_cases, so
                 solo_impl.append([ob for _, ob in s1[1]])
             solo_key.append(key)
     distinct = len({repr(s) for s in solos}) == len(solos)
-    flagged = any(c[0] or c[1] for s in solos for (c, _, _) in s)
+    flagged = any(c[0] or c[1] for s in solos for (c, _, _) in s[:-1])
     ck.count("worlds")
     ck.count(f"mode_{mode}")
     for i in spec["insts"]:
@@ -670,7 +728,7 @@ def check_world(ck, spec, mode, schedules, heap_exprs, heap_meta, solo_cases, so
             orc = kswin_oracle(spec, sched)
             for j in range(len(lens)):
                 if spec["insts"][j]["det"] == "KSWIN" and spec["insts"][j]["cfg"] is not None:
-                    got = [(c[0], c[2], int(float.fromhex(c[3][0]))) for (c, _, _) in outs[j]]
+                    got = [(c[0], c[2], int(float.fromhex(c[3][0]))) for (c, _, _) in outs[j][:-1]]
                     if got != orc[j]:
                         ck.violation(dict(clause="generator-only-channel", classes=sig_classes(spec)), dict(what="KSWIN outputs differ from the oracle in which one generator, seeded by each KSWINConfig and consumed in schedule order, is the only shared object", instance=j, got=got, oracle=orc[j], **detail))
                         return False
